@@ -21,6 +21,18 @@ CHECKS = {
    text="Checkgroup.tla models the channel protocol of the concurrent checkgroup statement by statement; TLC checks all interleavings for at-most-one-in-flight, result soundness, and under fairness plus eventual context release that every goroutine exits. On the real engine, spec-generated cases are run with the context cancelled before the call and at the gate before every storage call, and with every storage call failing: the call must return, the storage calls must stay within the spec's exhaustive-evaluation bound, and after release no goroutine of the check may remain (goroutine dumps).",
    note="Checkgroup.tla: up to 4 adds, one caller. 'Returns' uses a 10 s grace period; goroutine accounting polls dumps for up to 5 s.",
    technique="TLA+ model checking of the checkgroup protocol (safety + liveness) + cancellation/fault-position enumeration on the real engine", ref="4/C15"),
+ "C04": dict(
+   text="Store.tla specifies the store as a per-network multiset with one action per API operation; TLC checks its action properties exhaustively on a small universe (create adds one copy, delete-by-query removes all and only matches, transact is insert-then-delete all-or-nothing, errors change nothing, list = matching sub-bag) and generates API histories with the expected reply and full multiset after every step; the harness executes them alternately over REST and gRPC (adversarial concrete strings, pagination size 2) and the runner compares replies and stored multisets exactly.",
+   note="Histories of 30-40 operations over a universe of 72 tuples incl. unknown namespaces and missing subjects; sqlite only; check replies use configuration-free namespaces.",
+   technique="TLA+ model checking (TLC) + TLC-generated histories replayed over REST/gRPC", ref="4/C04"),
+ "C06": dict(
+   text="Store.tla's Isolation action property is checked exhaustively; the generated histories run over two networks on one database connection (network id from the request context), with a third network seeded by raw SQL with rows carrying network A's UUIDs, so that any statement missing its nid predicate changes an observable; after every step every network is listed and counted and must equal the model.",
+   note="Networks are selected through a context-driven Contextualizer on one registry (overlay-added test option); sqlite only.",
+   technique="TLA+ model checking (TLC) + TLC-generated histories replayed on two networks sharing a database", ref="4/C06"),
+ "C17": dict(
+   text="Store.tla's ReadOnlyUnchanged action property is checked exhaustively; on the real server a byte-level dump of both tables is compared around every read step of generated histories and around 19 read/syntax requests (never-seen names over every check transport, expand, list, namespaces, syntax check, and write methods sent to the read and syntax routers) after every step.",
+   note="sqlite only; the dump covers keto_relation_tuples and keto_uuid_mappings.",
+   technique="TLA+ model checking (TLC) + dump comparison around spec-generated read requests", ref="4/C17"),
 }
 NOT_YET = "check not built yet in this session (work in progress, see DESIGN.md section 12)"
 
